@@ -61,7 +61,10 @@ def base_configs(tier):
           dict(M=3, L=4, I=8, J=7, spacing='equiangular', offset=0.0, radius=1.0),
           dict(M=5, L=6, I=16, J=8, spacing='gauss', offset=0.0, radius=7.0 / 3.0),
           dict(M=3, L=3, I=7, J=5, spacing='equiangular_with_poles', offset=0.1, radius=1.0),
-          dict(M=4, L=5, I=13, J=7, spacing='gauss', offset=0.0, radius=1.0)]
+          dict(M=4, L=5, I=13, J=7, spacing='gauss', offset=0.0, radius=1.0),
+          # longitude_nodes = 2 * (longitude_wavenumbers - 1): the highest zonal wavenumber sits at the Nyquist frequency
+          dict(M=5, L=6, I=8, J=6, spacing='gauss', offset=0.0, radius=1.0),
+          dict(M=3, L=4, I=4, J=4, spacing='gauss', offset=0.1, radius=7.0 / 3.0)]
     if tier == 'thorough':
         cs += [dict(M=2, L=2, I=3, J=2, spacing='gauss', offset=0.0, radius=1.0),
                dict(M=6, L=7, I=12, J=9, spacing='gauss', offset=0.1, radius=1.0),
@@ -73,8 +76,19 @@ def base_configs(tier):
     return cs
 
 
+def r_mesh(ctx, a):
+    """The fast implementation on a device mesh (its production configuration) against the single-device
+    layout: to_nodal / to_modal / d_dlon / latitude derivative / laplacian for 3-D, surface and 2-D fields,
+    level counts not divisible by the z mesh, x meshes of size 4 (oracle shared with the C07 plugin)."""
+    from props import C07
+    return C07.r_grid(ctx, dict(a, no_model=True))
+
+
 def generate(ctx):
     rng = ctx.rng
+    for mesh, K in ([([2, 1, 1], 3), ([1, 4, 2], 2), ([4, 2, 1], 5)] if ctx.tier == 'quick' else
+                    [([2, 1, 1], 3), ([1, 4, 2], 2), ([4, 2, 1], 5), ([2, 2, 2], 7), ([1, 4, 1], 1), ([8, 1, 1], 3), ([1, 2, 4], 4)]):
+        yield 'mesh', {'mesh': mesh, 'L': 7, 'K': K, 'base': 1, 'seed': int(rng.integers(0, 2 ** 31))}
     yield 'default_stacked', {'Ms': [1, 2, 64, 127, 128, 129, 255, 256, 257, 384, 385, 512, 513, 640, 1280]}
     for n, c in enumerate(base_configs(ctx.tier)):
         ctx.count(f"M={c['M']}"); ctx.count('spacing:' + c['spacing'])
@@ -326,5 +340,5 @@ def r_equiv(ctx, a):
             ctx.oracle_close('uv_nodal_to_vor_div_modal: fast = E(real) (divergence)', np.asarray(vf[1]), E(np.asarray(vr[1]), M, L, fs), scale=sv)
 
 
-RUNNERS = {'jit_static': r_jit_static, 'default_stacked': r_default_stacked, 'related': r_related, 'layout': base.r_layout,
+RUNNERS = {'mesh': r_mesh, 'jit_static': r_jit_static, 'default_stacked': r_default_stacked, 'related': r_related, 'layout': base.r_layout,
            'transforms': base.r_transforms, 'equiv': r_equiv}
